@@ -57,11 +57,20 @@ static std::string cplx_line(ST& st) { std::vector<std::pair<S, long>> all; for 
   std::ostringstream o; o << "cplx"; for (auto& p : all) o << " " << W(p.first) << ":" << p.second; if (all.empty()) o << " "; return o.str(); }
 
 static void obs(ST& st, int universe) {
+  // equality with a tree rebuilt from the dump (other insertion history), inequality with a perturbed one: evaluated FIRST, in both
+  // directions, before any call (dimension(), counts) that would refresh a lazily maintained dimension bound
+  bool eq_first;
+  { std::vector<std::pair<S, long>> all0; for (auto sh : st.complex_simplex_range()) all0.push_back({verts(st, sh), F(st.filtration(sh))}); std::sort(all0.begin(), all0.end());
+    ST other; for (auto& p : all0) other.insert_simplex(tovh(p.first), (typename ST::Filtration_value)p.second);
+    bool e = (other == st) && !(other != st) && (st == other) && !(st != other);
+    if (!all0.empty()) { ST third(other); third.insert_simplex(tovh(S{universe + 3}), 0); if (st == third || third == st) e = false; }
+    eq_first = e; }
   std::vector<std::pair<S, long>> all; for (auto sh : st.complex_simplex_range()) all.push_back({verts(st, sh), F(st.filtration(sh))}); std::sort(all.begin(), all.end());
   std::cout << cplx_line(st) << "\n";
   std::cout << "n " << st.num_simplices() << " dim " << st.dimension() << " bydim " << vh::join(st.num_simplices_by_dimension()) << "\n";
   { S vs; for (auto v : st.complex_vertex_range()) vs.push_back((int)v); std::sort(vs.begin(), vs.end()); std::cout << "verts " << vh::join(vs) << "\n"; }
   { std::vector<S> sk; for (auto sh : st.skeleton_simplex_range(1)) sk.push_back(verts(st, sh)); std::cout << "skel1 " << Ws(sk) << "\n"; }
+  { std::vector<S> sk; for (auto sh : st.skeleton_simplex_range(2)) sk.push_back(verts(st, sh)); std::cout << "skel2 " << Ws(sk) << "\n"; }
   if (st.upper_bound_dimension() < st.dimension()) std::cout << "upper_bound_dimension below dimension\n";
   for (auto& p : all) {
     auto sh = st.find(tovh(p.first));
@@ -80,11 +89,7 @@ static void obs(ST& st, int universe) {
   { long bad = 0; std::set<S> mem; for (auto& p : all) mem.insert(p.first);
     for (unsigned m = 1; m < (1u << universe); ++m) { S s; for (int k = 0; k < universe; ++k) if (m >> k & 1) s.push_back(k); if (!mem.count(s) && st.find(tovh(s)) != st.null_simplex()) ++bad; }
     std::cout << "nonmem " << bad << "\n"; }
-  // equality with a tree rebuilt from the dump (other insertion history), inequality with a perturbed one
-  { ST other; for (auto& p : all) other.insert_simplex(tovh(p.first), (typename ST::Filtration_value)p.second);
-    bool e = (st == other) && (other == st) && !(st != other);
-    if (!all.empty()) { ST third(other); third.insert_simplex(tovh(S{universe + 3}), 0); if (st == third) e = false; }
-    std::cout << "eq " << (e ? 1 : 0) << "\n"; }
+  std::cout << "eq " << (eq_first ? 1 : 0) << "\n";
 }
 
 int main(int argc, char** argv) {
